@@ -4,6 +4,7 @@ import Mdsort.Proofs.PartiesExactly
 import Mdsort.Proofs.PartiesWitness
 import Mdsort.Proofs.PartiesCopyWitness
 import Mdsort.Proofs.PartiesClient
+import Mdsort.Proofs.PartiesReaddirWitness
 
 /-!
 # C17 - concurrent runs on the same maildirs neither lose nor duplicate messages
@@ -247,6 +248,25 @@ def C17_exactly_once : Prop :=
   ∀ (s0 : Shared) (sched : List Nat), C17Start s0 → (runSched s0 sched).quiescent = true →
     ExactlyOnce s0 (runSched s0 sched)
 
+theorem c17start_witness : C17Start Proofs.Parties.W.s0 := by
+  open Proofs.Parties.W in
+  refine ⟨Proofs.Parties.fresh_init _ _, ?_, ?_, ?_⟩
+  · intro ps hps
+    simp only [s0, Shared.init, List.map_cons, List.map_nil, List.mem_cons, List.not_mem_nil, or_false] at hps
+    rcases hps with rfl | rfl | rfl <;> exact .inl (.inl ⟨_, _, _, rfl⟩)
+  · show (fs.shared.entries).Pairwise _
+    decide +kernel
+  · intro ps hps d p hd
+    simp only [s0, Shared.init, List.map_cons, List.map_nil, List.mem_cons, List.not_mem_nil, or_false] at hps
+    have hh : ps.handles = dirH := by rcases hps with rfl | rfl | rfl <;> rfl
+    rw [hh] at hd
+    have hp : p = ofString "/m/new" := by
+      match d, hd with
+      | 0, hd => simpa [handlesDirPath, dirH] using hd.symm
+      | d + 1, hd => simp [handlesDirPath, dirH] at hd
+    subst hp
+    decide +kernel
+
 open Proofs.Parties.W in
 /-- F14: A = `label` on the message `new/a`, B1 = `move` of `a`, B2 = `move` of the name A created
 (what a listing of `new/` shows while A is at work); A runs up to and including its `fsync`, then
@@ -255,23 +275,7 @@ error).  Both the original and A's labelled copy end up in `/d/new`: the message
 The parties are the scripts themselves (`matchesExec`), evaluated by the kernel. -/
 theorem C17_exactly_once_false : ¬ C17_exactly_once := by
   intro h
-  have hstart : C17Start s0 := by
-    refine ⟨Proofs.Parties.fresh_init _ _, ?_, ?_, ?_⟩
-    · intro ps hps
-      simp only [s0, Shared.init, List.map_cons, List.map_nil, List.mem_cons, List.not_mem_nil, or_false] at hps
-      rcases hps with rfl | rfl | rfl <;> exact .inl (.inl ⟨_, _, _, rfl⟩)
-    · show (fs.shared.entries).Pairwise _
-      decide +kernel
-    · intro ps hps d p hd
-      simp only [s0, Shared.init, List.map_cons, List.map_nil, List.mem_cons, List.not_mem_nil, or_false] at hps
-      have hh : ps.handles = dirH := by rcases hps with rfl | rfl | rfl <;> rfl
-      rw [hh] at hd
-      have hp : p = ofString "/m/new" := by
-        match d, hd with
-        | 0, hd => simpa [handlesDirPath, dirH] using hd.symm
-        | d + 1, hd => simp [handlesDirPath, dirH] at hd
-      subst hp
-      decide +kernel
+  have hstart : C17Start s0 := c17start_witness
   have hone := ((h s0 sched hstart run_quiescent).1 (ofString "/m/new", ofString "a", 0) (by decide +kernel)).1
   have hc : s0.fs.content 0 = content := by decide +kernel
   rw [show ((ofString "/m/new", ofString "a", 0) : Bytes × Bytes × Nat).2.2 = 0 from rfl, hc, run_dup] at hone
@@ -302,5 +306,49 @@ theorem C17_F13_empty_stray :
 open Proofs.Parties.W in
 /-- `H_iso` is what the counterexample of `C17_exactly_once_false` violates. -/
 theorem C17_F14_not_isolated : Hiso s0 sched = false := run_not_iso
+
+/-! ## `H_iso` from what directory listings return -/
+
+/-- The implication without side conditions: if no `readdir` returns a name another party has in flight, the
+schedule respects `H_iso`. -/
+def C17_hisoReaddir_implies_hiso_unrestricted : Prop :=
+  ∀ (s0 : Shared) (sched : List Nat), C17Start s0 → HisoReaddir s0 sched = true → Hiso s0 sched = true
+
+open Proofs.Parties.W in
+/-- It is false: a party need not have its names from a listing.  In the F14 schedule of `C17_exactly_once_false`
+the three parties are handed their names (one of them the name another has in flight) and nobody calls
+`readdir` at all. -/
+theorem C17_hisoReaddir_implies_hiso_unrestricted_false : ¬ C17_hisoReaddir_implies_hiso_unrestricted := by
+  intro h
+  have := h s0 sched c17start_witness run_readdir_iso
+  rw [run_not_iso] at this
+  cases this
+
+/-- `H_iso` from the results of `readdir`, with name spaces.  `N i` contains every name party `i` can generate
+(`GenNames`), the name spaces are pairwise disjoint (the processes differ in pid or host), and every party is
+* a listing run (`scanExec`) whose rules name the message after the directory entry, or
+* a run on one message whose given name is in no other party's name space, or
+* a client that mentions no name of any name space.
+If no `readdir` of a party returns a name of ANOTHER party's name space (`HisoReaddirNS`) and no party renames
+a name it has in flight itself (`HisoOwn`, the purely local clause of `H_iso`: `maildir_genname` regenerating the
+very name of the message being moved), then the schedule respects `H_iso`; and `HisoReaddirNS` implies the
+isolation stated on names in flight (`HisoReaddir`). -/
+theorem C17_hisoReaddir_implies_hiso (N : Nat → Bytes → Prop) (hdisj : ∀ i j n, i ≠ j → N i n → ¬ N j n) (s0 : Shared)
+    (hf : Proofs.Parties.Fresh s0)
+    (hp : ∀ (i : Nat) (ps : PState), s0.parties[i]? = some ps → Proofs.Parties.ReaddirParty N i ps)
+    (sched : List Nat) (hrd : HisoReaddirNS N s0 sched) (hown : HisoOwn s0 sched = true) :
+    Hiso s0 sched = true ∧ HisoReaddir s0 sched = true :=
+  ⟨Proofs.Parties.hiso_of_readdirNS N hdisj s0 hf hp sched hrd hown, Proofs.Parties.hisoReaddir_of_NS N s0 hf hp sched hrd⟩
+
+open Proofs.Parties.W in
+/-- Non-vacuity: A = `label` on `a` (handed the name), B = LISTS `/m/new` and moves every name to `/d`; B takes
+its listing first, then the two alternate call by call; B's `renameat` precedes A's `unlinkat`: B wins, A rolls
+its complete copy back and reports an error. -/
+example : (∀ i j n, i ≠ j → NS i n → ¬ NS j n) ∧ Proofs.Parties.Fresh r0 ∧
+    (∀ (i : Nat) (ps : PState), r0.parties[i]? = some ps → Proofs.Parties.ReaddirParty NS i ps) ∧
+    HisoReaddirNS NS r0 schedR ∧ HisoOwn r0 schedR = true ∧ (runSched r0 schedR).quiescent = true ∧
+    (runSched r0 schedR).parties.map (·.result) = [some true, some false] ∧
+    (runSched r0 schedR).fs.entries = [(ofString "/d/new", ofString "7.2_1.h:2,", 0)] :=
+  ⟨ns_disj, Proofs.Parties.fresh_init _ _, r_parties, r_ns0, r_own0, r_facts⟩
 
 end Mdsort.Props
